@@ -174,6 +174,24 @@ func runC12(cx *Ctx, r *Report) {
 			}
 			r.check(okW, "G1-export-imported", m+"|"+px, cx.P.Pos(u.site.Pos()), "exported prefix is written by InitGenesis", "prefix "+px+" is read by ExportGenesis but never written by InitGenesis: exported data is not restored")
 		}
+		// G9: a validator that compares the NUMBER of distinct records of two kinds
+		// (len(mapA) != len(mapB) → reject) accepts an export only while every record of the
+		// one kind still has its counterpart of the other kind in the store; a run-time
+		// Delete under an exported prefix of that module removes such a counterpart (a fully
+		// spent balance entry) and the chain's own export is then rejected on import.
+		if cmp := cx.presenceCountComparison(m); cmp != "" {
+			var dels []string
+			for px, us := range rt["delete"] {
+				if !ownPrefix(px, us, m) || !coveredBy(px, et["read"]) {
+					continue
+				}
+				for _, u := range us {
+					dels = append(dels, px+" at "+cx.P.Pos(u.site.Pos())+" ("+shortFn(u.fn)+")")
+				}
+			}
+			sort.Strings(dels)
+			r.check(len(dels) == 0, "G9-presence-counted-delete", m, cmp, "the validator counts distinct records ("+cmp+") and no exported prefix of the module is deleted at run time", "the genesis validator compares record counts ("+cmp+") but exported records are deleted at run time: "+strings.Join(dels, "; ")+" - after such a delete the exported state fails its own validation on import")
+		}
 		for _, px := range c12Derived[m] {
 			_, okW := it["write"][px]
 			r.check(okW, "G1-derived-rebuilt", m+"|"+px, "", "derived prefix is rebuilt by InitGenesis", "derived prefix "+px+" (index / queue rebuilt from exported data) is not written by InitGenesis")
@@ -191,6 +209,9 @@ func runC12(cx *Ctx, r *Report) {
 	cx.c12Validators(r)
 	cx.c12ValidatorAccumulators(r)
 	cx.c12MapWriteBack(r)
+	if n := cx.importRebuildRule(r, mods, "G8-derived-coexecuted"); n < 4 {
+		r.toolErr("only %d record/derived pairs found in import loops (≥4 confirmed)", n)
+	}
 	r.requireCount("G1-runtime-exported", 55)
 	r.requireCount("G1-export-imported", 30)
 	r.requireCount("G1-derived-rebuilt", 15)
@@ -1098,4 +1119,258 @@ func (cx *Ctx) c12MapWriteBack(r *Report) {
 	if n < 1 {
 		r.toolErr("no modified map value found in any export closure (≥1 confirmed: random pending requests)")
 	}
+}
+
+// ------------------------------------------------------------- G8
+//
+// importRebuildRule: a derived index or queue is rebuilt by InitGenesis *for every
+// record it restores*. In the import loop, each Set of a record under an exported
+// prefix that shares the loop with the Set of the derived prefix must be
+// co-executed with it. A derived write that is reached only under extra
+// conditions is accepted when each such condition either aborts the import on
+// its other side (panic) or is a test of the derived state itself (a pool that
+// has already ended is not put back on the queue: `!k.Expired(ctx, pool)`).
+// A condition on a plain field of the record (`if !htlc.Transfer { continue }`)
+// silently drops the entry for part of the records: those contracts are then
+// never visited by the block handler after a restart from exported state.
+func (cx *Ctx) importRebuildRule(r *Report, mods []string, rule string) int {
+	n := 0
+	for _, m := range mods {
+		if len(c12Derived[m]) == 0 {
+			continue
+		}
+		var entries []Entry
+		for _, e := range cx.entriesOfModule(m, "genesis") {
+			if e.Name == "InitGenesis" {
+				entries = append(entries, e)
+			}
+		}
+		type sev struct {
+			ev   *Event
+			w    *Walker
+			site ssa.Instruction // lifted into the frame that holds the loop
+			fr   *Frame
+			h    *ssa.BasicBlock
+		}
+		var sets []sev
+		cx.forEachEvent(entries, nil, func(e *Entry, w *Walker, ev *Event) {
+			if ev.Kind != "store.set" {
+				return
+			}
+			for f := ev.Fr; f != nil; f = f.Parent {
+				site := liftTo(ev, f)
+				if site == nil {
+					break
+				}
+				if !inLoop(site.Block()) {
+					continue
+				}
+				if h := loopHeaderOf(site.Block()); h != nil {
+					sets = append(sets, sev{ev, w, site, f, h})
+					break
+				}
+			}
+		})
+		readsPrefix := func(f *ssa.Function, d string) bool {
+			if f == nil || f.Blocks == nil {
+				return false
+			}
+			for _, g := range cx.Reachable([]*ssa.Function{f}, nil).Order {
+				if g.Blocks == nil {
+					continue
+				}
+				for _, p := range cx.primsOf(g) {
+					if (p.Kind == "store.has" || p.Kind == "store.get" || p.Kind == "store.iter") && contains(p.Prefix, d) {
+						return true
+					}
+				}
+			}
+			return false
+		}
+		for _, d := range c12Derived[m] {
+			var ws, ps []sev
+			for _, s := range sets {
+				switch {
+				case hasPrefix(s.ev, d):
+					ws = append(ws, s)
+				default:
+					derived := false
+					for _, px := range s.ev.Prefix {
+						if contains(c12Derived[m], px) {
+							derived = true
+						}
+					}
+					if !derived {
+						ps = append(ps, s)
+					}
+				}
+			}
+			kc := keyCounter{}
+			for _, p := range ps {
+				// only records restored in a loop that also rebuilds this derived prefix
+				var same []sev
+				for _, w := range ws {
+					if w.h == p.h && w.fr == p.fr {
+						same = append(same, w)
+					}
+				}
+				if len(same) == 0 {
+					continue
+				}
+				n++
+				key := kc.next(m + "|" + d + "|" + strings.Join(p.ev.Prefix, ","))
+				ok, why := false, ""
+				for _, w := range same {
+					if coExecuted(p.ev, w.ev) {
+						ok, why = true, "co-executed with the record's Set"
+						break
+					}
+				}
+				bad := ""
+				if !ok {
+					for _, w := range same {
+						if !blockReaches(p.site.Block(), w.site.Block()) && p.site.Block() != w.site.Block() {
+							continue
+						}
+						have := map[*ssa.If]bool{}
+						for _, f := range dominatingFacts(p.site.Block()) {
+							have[f.If] = true
+						}
+						allOK := true
+						for _, f := range dominatingFacts(w.site.Block()) {
+							if have[f.If] || f.If == nil {
+								continue
+							}
+							// the side that does not lead to the derived write
+							var other *ssa.BasicBlock
+							for i, s := range f.If.Block().Succs {
+								if (i == 0) != f.Holds {
+									other = s
+								}
+							}
+							c := f.Cond
+							for {
+								if u, isU := c.(*ssa.UnOp); isU && u.Op == token.NOT {
+									c = u.X
+									continue
+								}
+								if ex, isE := c.(*ssa.Extract); isE {
+									c = ex.Tuple
+									continue
+								}
+								break
+							}
+							selfTest := false
+							if call, isC := c.(*ssa.Call); isC {
+								for _, e := range cx.calleesOf(call) {
+									if readsPrefix(e.Callee, d) {
+										selfTest = true
+									}
+								}
+							}
+							if selfTest || (other != nil && alwaysAborts(other, w.h)) {
+								continue
+							}
+							allOK = false
+							bad = "the rebuild at " + w.ev.Pos(cx) + " is skipped under the condition tested at " + cx.P.Pos(condPos(f.Cond, f.If.Block()))
+						}
+						if allOK {
+							ok, why = true, "guarded only by aborting checks or by tests of the derived state itself"
+							break
+						}
+					}
+				}
+				if bad == "" {
+					bad = "no rebuild of " + d + " follows the record's Set in the same iteration"
+				}
+				r.check(ok, rule, key, p.ev.Pos(cx), "every record restored under "+strings.Join(p.ev.Prefix, ",")+" gets its "+d+" entry in the same iteration ("+why+")",
+					"InitGenesis restores records under "+strings.Join(p.ev.Prefix, ",")+" without rebuilding their "+d+" entry on every path ("+bad+"): after a restart from exported state those records have no index / queue entry")
+			}
+		}
+	}
+	return n
+}
+
+// alwaysAborts: every path from b ends in a panic before returning or reaching
+// the loop header h again.
+func alwaysAborts(b, h *ssa.BasicBlock) bool {
+	seen := map[*ssa.BasicBlock]bool{}
+	var walk func(x *ssa.BasicBlock) bool
+	walk = func(x *ssa.BasicBlock) bool {
+		if x == h {
+			return false
+		}
+		if seen[x] {
+			return true
+		}
+		seen[x] = true
+		switch x.Instrs[len(x.Instrs)-1].(type) {
+		case *ssa.Panic:
+			return true
+		case *ssa.Return:
+			return false
+		}
+		if len(x.Succs) == 0 {
+			return false
+		}
+		for _, s := range x.Succs {
+			if !walk(s) {
+				return false
+			}
+		}
+		return true
+	}
+	return walk(b)
+}
+
+// condPos: a source position for a branch condition (ssa.If itself has none).
+func condPos(c ssa.Value, b *ssa.BasicBlock) token.Pos {
+	if c != nil && c.Pos().IsValid() {
+		return c.Pos()
+	}
+	for i := len(b.Instrs) - 1; i >= 0; i-- {
+		if p := b.Instrs[i].Pos(); p.IsValid() {
+			return p
+		}
+	}
+	return token.NoPos
+}
+
+// presenceCountComparison: position of a comparison len(mapA) ⋈ len(mapB) of two
+// maps in the module's ValidateGenesis ("" if there is none).
+func (cx *Ctx) presenceCountComparison(m string) string {
+	isLenOfMap := func(v ssa.Value) bool {
+		c, ok := v.(*ssa.Call)
+		if !ok {
+			return false
+		}
+		b, isB := c.Common().Value.(*ssa.Builtin)
+		if !isB || b.Name() != "len" || len(c.Common().Args) != 1 {
+			return false
+		}
+		_, isMap := c.Common().Args[0].Type().Underlying().(*types.Map)
+		return isMap
+	}
+	for _, e := range cx.entriesOfModule(m, "genesis") {
+		if e.Name != "ValidateGenesis" || e.Fn == nil {
+			continue
+		}
+		for _, g := range cx.Reachable([]*ssa.Function{e.Fn}, nil).Order {
+			if g.Blocks == nil || !isIrismodFunc(g) {
+				continue
+			}
+			for _, b := range g.Blocks {
+				for _, ins := range b.Instrs {
+					bo, ok := ins.(*ssa.BinOp)
+					if !ok || (bo.Op != token.EQL && bo.Op != token.NEQ) {
+						continue
+					}
+					if isLenOfMap(bo.X) && isLenOfMap(bo.Y) {
+						return cx.P.Pos(bo.Pos())
+					}
+				}
+			}
+		}
+	}
+	return ""
 }
